@@ -52,10 +52,12 @@ def check_feed_loop(ck, fn, counting):
     res_local = ht["d"]["l"]
     sws = [s for s in mir.discr_switches(body) if s[1] == ("discr", body.origin_local(res_local)) or (s[1][0] == "discr" and s[1][1][0] == "call" and s[1][1][1] == NEXT)]
     sws = [s for s in sws if body.dominates(hb, s[0])]
-    if not ck.ob("L-dispatch-on-next", key, len([s for s in sws if set(s[2]) == {0, 1}]) >= 1, "%s does not match on the result of next()" % key):
+    arms = [(s, mir.enum_arms(body, s)) for s in sws]
+    arms = [(s, a) for s, a in arms if set(a) == {0, 1}]
+    if not ck.ob("L-dispatch-on-next", key, len(arms) >= 1, "%s does not match on the result of next()" % key):
         return
-    sw = [s for s in sws if set(s[2]) == {0, 1}][0]
-    some_bb, none_bb = sw[2][1], sw[2][0]
+    sw, arm = arms[0]
+    some_bb, none_bb = arm[1], arm[0]
     # None arm leaves the loop and never calls the callback
     none_blocks = mir.dominated(body, none_bb)
     ck.ob("L-exhaustion-exits", key, not body.reaches(none_bb, hb) and none_bb != hb, "%s keeps looping after the source is exhausted" % key)
@@ -257,11 +259,12 @@ def run(tier):
         ok = len(nx) == 1 and body.on_all_paths_to_return(nx[0][0]) and not body.in_cycle(nx[0][0]) and mir.strip(body.origin_operand(nx[0][1]["args"][0])) == ("arg", 1)
         if not ck.ob("I-one-next", key, ok, "%s must advance its source exactly once per call" % key):
             continue
-        sws = [s for s in mir.discr_switches(body) if s[1][0] == "discr" and s[1][1][0] == "call" and s[1][1][1] == NEXT and set(s[2]) == {0, 1}]
+        sws = [s for s in mir.discr_switches(body) if s[1][0] == "discr" and s[1][1][0] == "call" and s[1][1][1] == NEXT and set(mir.enum_arms(body, s)) == {0, 1}]
         if not ck.ob("I-dispatch", key, len(sws) >= 1, "%s does not match on next()" % key):
             continue
         sw = sws[0]
-        some_b, none_b = mir.dominated(body, sw[2][1]), mir.dominated(body, sw[2][0])
+        arm = mir.enum_arms(body, sw)
+        some_b, none_b = mir.dominated(body, arm[1]), mir.dominated(body, arm[0])
         writes = [(i, t) for i, t in body.calls() if cp(t).endswith("::write")]
         good = len(writes) == 1 and writes[0][0] in some_b
         if good:
@@ -293,12 +296,12 @@ def run(tier):
             ck.ob("I-next-own-pair", key, fo[0] == "field" and fo[2] == "func" and io[0] == "field" and io[2] == "iter" and mir.strip(fo[1]) == mir.strip(io[1]) == ("arg", 1),
                   "CIterator::next does not call its own func with its own iter")
             ai = [(i, tt) for i, tt in body.calls() if cp(tt).endswith("::assume_init")]
-            sws = [s for s in mir.discr_switches(body) if s[1][0] == "bin" and s[1][1] == "Eq" and s[1][2][0] == "icall" and s[1][3] == ("const", 0, "i32")]
+            sws = [z for z in mir.zero_tests(body) if z[1][0] == "icall"]
             good = len(sws) == 1 and len(ai) == 1
             if good:
                 sw = sws[0]
-                true_b = mir.dominated(body, sw[3]) if 0 in sw[2] else set()
-                false_b = mir.dominated(body, sw[2].get(0)) if 0 in sw[2] else set()
+                true_b = mir.dominated(body, sw[2])
+                false_b = mir.dominated(body, sw[3])
                 slot = mir.strip(body.origin_operand(ai[0][1]["args"][0]))
                 good = ai[0][0] in true_b and slot == so and slot[0] == "call" and slot[1].endswith("MaybeUninit::<T>::uninit")
                 for i in sorted(body.live_blocks()):
